@@ -58,7 +58,7 @@ theorem sigmaTRDomain_fscm_sound (F : FscmFamily) (G : MG Name) (graphs : Option
     (hd : DomainSpecOK d t) (σ' : Val)
     (hpop : ∀ σ, den (((F.model (some t)).toScm F.card F.base).env d.graph) σ' (popOf t d.graph) σ =
       ((F.model (some t)).toScm F.card F.base).Q (d.topo.filter (· ∈ regular d.graph)) σ)
-    (hshape : TianSpec.ProbShape d.graph.nodes (popOf t d.graph) (d.topo.filter (· ∈ regular d.graph)))
+    (hshape : TianSpec.ProbShape (popOf t d.graph) (d.topo.filter (· ∈ regular d.graph)))
     (district : List Name) (hne : district ≠ []) (hreg : ∀ v ∈ district, v ∈ regular d.graph)
     (hdT : ∀ v ∈ district, v ∈ F.target.order) (hus : domainUsable district d = true)
     (e : Expr) (h : sigmaTRDomain district d = .ok (some e)) :
